@@ -155,6 +155,8 @@ var texts = []string{
 	"plain words only", "2026/01/02 03:04:05.000006 [9] timestamp-like",
 }
 
+var longTexts = []string{"L" + strings.Repeat("0123456789abcdef", 4096) + "64K", "L" + strings.Repeat("x", 100000), "L" + strings.Repeat("line ", 200000)}
+
 type callRec struct {
 	token string
 	ent   int
@@ -176,6 +178,17 @@ func genMsg(r *vrand.Rand, token string, printf bool) (format string, args []int
 			args, shape = []interface{}{token, text, r.Intn(1000) - 500, text}, "ln4"
 		}
 		return "", args, strings.TrimSuffix(fmt.Sprintln(args...), "\n"), shape
+	}
+	if r.Chance(1, 1500) {
+		// a very long line (a dumped request, a stack): still one whole line, nothing cut off
+		long := longTexts[r.Intn(len(longTexts))]
+		format, args, shape = "%s %s|end", []interface{}{token, long}, "f-long"
+		return format, args, fmt.Sprintf(format, args...), shape
+	}
+	if r.Chance(1, 40) {
+		// the C habit: a Printf-style message that ends with its own newline is still one line, not a line and an empty one
+		format, args, shape = token+" %s done\n", []interface{}{text}, "f-trailing-newline"
+		return format, args, strings.TrimSuffix(fmt.Sprintf(format, args...), "\n"), shape
 	}
 	switch r.Intn(16) {
 	case 0, 1, 2, 3:
